@@ -43,6 +43,7 @@ type c13Step struct {
 	ParkAt    int         `json:"park_at,omitempty"`    // park at this page lookup (statements that do not log, or ParkEarly)
 	ParkEarly bool        `json:"park_early,omitempty"` // park a logging statement at a page lookup instead of at its log write
 	IdleMs    int         `json:"idle_ms,omitempty"`    // pause after the statement
+	Refused   bool        `json:"refused,omitempty"`    // the Select text names a table that does not exist: an error is the right answer
 }
 
 type c13Case struct {
@@ -105,7 +106,14 @@ func c13Gen(rt *rapid.T) c13Case {
 	for len(c.Steps) < n {
 		st := c13Step{IdleMs: rapid.SampledFrom([]int{0, 0, 0, 20, 60, 110, 150}).Draw(rt, "idle")}
 		names := db.TableNames()
-		if len(names) > 0 && rapid.IntRange(0, 4).Draw(rt, "sel") == 0 {
+		if len(names) > 0 && rapid.IntRange(0, 9).Draw(rt, "refusedstmt") == 0 {
+			// a statement that is refused (misspelt table): whatever the session does to answer it
+			// belongs inside the statement bracket like everything else
+			st.Refused = true
+			tn := names[rapid.IntRange(0, len(names)-1).Draw(rt, "seltbl")]
+			st.Select = rapid.SampledFrom([]string{"SELECT * FROM nosuch_tbl", "INSERT INTO nosuch_tbl VALUES (1)", "UPDATE nosuch_tbl SET a = 1", "DELETE FROM nosuch_tbl",
+				"SELECT * FROM " + tn + " x JOIN nosuch_tbl y ON 1 = 1"}).Draw(rt, "refusedsql")
+		} else if len(names) > 0 && rapid.IntRange(0, 4).Draw(rt, "sel") == 0 {
 			tn := names[rapid.IntRange(0, len(names)-1).Draw(rt, "seltbl")]
 			st.Select = "SELECT * FROM " + tn
 			if k := rapid.IntRange(0, 3).Draw(rt, "seljoins"); k >= 2 {
@@ -332,6 +340,13 @@ func c13Run(c c13Case, st *vlib.Stats) string {
 		var err error
 		if step.Stmt != nil {
 			err = eng.ExecStmt(*step.Stmt)
+		} else if step.Refused {
+			// through the session, as the console would send it
+			if e := eng.Exec(step.Select); e == nil {
+				st.Label("refused-statement-accepted", 1)
+			} else if mk.IsPanic(e) {
+				err = e
+			}
 		} else {
 			_, err = eng.Query(step.Select)
 		}
